@@ -49,6 +49,21 @@ SIG_RULE = ('seeded sequences of 25-60 BeginBlocker calls over a pool of 1-40 va
             'near ties around the 5% boundary, random up to 2^30; nearly equal addresses; per step random bonding/unbonding and delegation changes. A case agrees when the current set, the latest set and the nonce match after every step.')
 
 PROPS = {
+    'C07': {'gen': ['gen_srcfacts.py'],
+            'suites': [{'name': 'ckpt', 'quick': '-n 50', 'thorough': '-n 600', 'shards': {'quick': 2, 'thorough': 16}},
+                       {'name': 'sig', 'quick': '-n 600', 'thorough': '-n 6000', 'shards': {'quick': 1, 'thorough': 4}}],
+            'trusted_base': [
+                'translator bin/gen_srcfacts.py (regex/JSON based): regenerates coq/Gen/SrcFactsSol.v from solidity/contracts/Hub2.sol (abi.encode argument lists with types, method-name literals, verifySig prefix and shape) '
+                'and coq/Gen/SrcFactsGo.v from types/abi_json.go, types/outgoing_tx.go, types/ethereum_signer.go on every run; the theorems are re-checked against them',
+                'model: coq/Ext/Abi.v (Solidity ABI encoder, written from the ABI specification), coq/Ext/Keccak.v (Keccak-256, checked against two test vectors inside Coq), coq/Ext/Checkpoint.v; '
+                'tied to the implementation by co-execution: types.*.GetCheckpoint digests on generated signer sets / batches / contract calls must equal keccak256(abi_encode(model args)); '
+                'ValidateEthereumSignature verdicts must equal the model scheme given go-ethereum\'s recovery result',
+                'modelled: the relayer\'s mapping of hub fields to contract parameters (relay_valset / relay_batch, as the orchestrator passes them); ECDSA recovery is an abstract function; '
+                'collision resistance of Keccak-256 is assumed for "no other digest"; the EVM\'s own abi.encode/ecrecover are exercised through the compiled contract in the C08 suite'],
+            'rule': 'ckpt: random gravity ids (0..32 bytes), nonces/timeouts up to 2^63, 0..120 members with powers up to 2^32, batches of 0..100 transfers with amounts in {0, 2^256-1, powers of 256, random widths}, '
+                    'addresses with leading zero bytes, contract calls with payloads of 0/1/31/32/33/64/100/1000 bytes and scopes of 0/1/20/32 bytes. sig: fresh secp256k1 keys; valid signatures, other claimed address, '
+                    'v=27/28 and 0/1, short, long, damaged signatures, other digest.',
+            'assumptions': ['Keccak-256 collision resistance and ECDSA unforgeability (not proved; the scheme agreement holds for any recovery function)']},
     'C09': {'suites': [{'name': 'sigset', 'quick': '-n 400 -ops 25', 'thorough': '-n 3000 -ops 60', 'shards': {'quick': 2, 'thorough': 16}}],
             'trusted_base': SIG_TB, 'rule': SIG_RULE,
             'assumptions': ['powers are non-negative', 'registered external addresses are distinct (C17); the staking hook for unbonding heights is disabled in the code (lastUnbondingHeight stays 0)']},
@@ -82,6 +97,9 @@ _HUB_NOTE = ('Trusted: Coq 8.16.1 kernel (vm_compute, no native_compute), extrac
 _VOTES_NOTE = ('Trusted: Coq kernel, extraction + driver, Go harness; the hand-written votes model is tied to /repo by co-execution on the real msg server/EndBlocker; '
                'staking, orchestrator registry and claim hash are inputs.')
 TEXT = {
+    'C07': {'technique': 'source-to-Coq translators + Coq lemmas over the generated facts + executable ABI/Keccak model co-executed with GetCheckpoint',
+            'level': 'Theorems re-checked on every run against definitions generated from the current Hub2.sol and Go sources: same argument types/order/method constants, same argument values for every relayed signer set and batch (all sizes, all amounts) hence equal encodings and digests; hub signature check = contract verifySig for v in {27,28} for any recovery function; same prefix. The encoder+Keccak model is validated against the real GetCheckpoint and ValidateEthereumSignature.',
+            'note': 'Trusted: Coq kernel, the translator, extraction + driver, Go harness; ABI spec transcription; contract-call (logic call) value mapping is only type-checked, not value-mapped.'},
     'C09': {'technique': 'Coq algebraic lemmas (floor, sums, unique sorted permutation) + freshness characterisation + correspondence',
             'level': 'Theorems for all validator sets: members = bonded validators with a key, in staking order; normalised power = floor(p*(2^32-1)/total) within one unit, sum <= 2^32-1; published order is a sorted permutation and the only one; nonce = previous+1; after BeginBlocker either the sorted current set was just published or the latest differs by at most 5% (rational test). Monitors on the implementation.',
             'note': 'Trusted: Coq kernel, extraction + driver, Go harness; staking input and key registry are inputs; float evaluation of PowerDiff argued, not modelled.'},
